@@ -66,6 +66,17 @@ Definition NL : list N := [10].
 Definition render (rows : list lease) : list N :=
   str "{ ""leases"" : [" ++ NL ++ join ([44] ++ NL) (map render_row rows) ++ NL ++ str "]}" ++ NL.
 
+(* ---- serve_leases: `leases.sort(); leases_to_json(&leases)` ---------------
+   LeaseInfo derives Ord with the address first, and the address is the store's primary key: the
+   order is the order of the addresses (stated for rows with distinct addresses). *)
+Fixpoint insert_by_ip (x : lease) (l : list lease) : list lease :=
+  match l with
+  | [] => [x]
+  | y :: r => if l_ip x <=? l_ip y then x :: y :: r else y :: insert_by_ip x r
+  end.
+Definition sort_by_ip (l : list lease) : list lease := fold_right insert_by_ip [] l.
+Definition serve_listing (rows : list lease) : list N := render (sort_by_ip rows).
+
 (* ---- get_pool_metrics ----------------------------------------------------
    SELECT COALESCE(SUM(CASE WHEN expiry > now THEN 1 ELSE 0 END), 0),
           COALESCE(SUM(CASE WHEN expiry <= now THEN 1 ELSE 0 END), 0) FROM leases
